@@ -147,8 +147,14 @@ def scenario(inst, V):
     if kind == "string":
         hooks = [V.str(f"h{i}", inst["hlen"], ALPHA) for i in range(inst["nhooks"])]
         m = V.str("m", inst["mlen"], ALPHA)
-        finder = _JaxtypingFinder(hooks, None, None)
-        got = finder.should_instrument(m)
+        # the finder as the public installer creates it (typechecker None: nothing is imported)
+        before = list(sys.meta_path)
+        mgr = jt.install_import_hook(list(hooks), None)
+        try:
+            finder = [f for f in sys.meta_path if all(f is not b for b in before)][0]
+            got = finder.should_instrument(m)
+        finally:
+            mgr.uninstall()
         if not isinstance(got, bool):
             got = bool(got)
         conds = []
